@@ -8,6 +8,7 @@ class CommaOperator(Operator):
 
     def solve_operand(self, left: Any, right: Any) -> Any:
         if isinstance(left, list):
-            return left.append(right)
+            left.append(right)
+            return left
 
         return [left, right]
